@@ -364,7 +364,7 @@ def threaded_twins(ctx, lines, impl_ans, rng):
 
 
 def run(ctx):
-    st = translate.run(["AccessorArith", "Packs", "Pinned", "PartialFacts", "SeqCounter"])
+    st = translate.run(["AccessorArith", "Packs", "Pinned", "PartialFacts", "SeqCounter", "WatercareSteps"])
     ctx.cov["translator"] = st
     for k, v in st.items():
         if v != "ok":
